@@ -14,15 +14,19 @@ oracle: no Lean.  Stream `oracle.sched` (every run of the corr streams), `oracle
         <%namespace module=...> of a never-imported module whose body yields to the scheduler, the import lock being
         an instrumented lock), `oracle.cache-lines` (first cached calls of a def with its own cache_region on a
         back end that needs it, a point at every executed line of mako/cache.py, every stop line of one thread with
-        the other running to completion, both ways round), `oracle.pct-lines` (PCT random-priority schedules, depth 3,
+        the other running to completion, both ways round), `oracle.lru-lines` (bounded lookups, a point at every
+        executed line of the LRUCache methods of mako/util.py, a writer stopped at every line while a reader on the
+        lock-free hit path runs to completion and vice versa, collection_size 1, 2 x filesystem_checks on/off),
+        `oracle.pct-lines` (PCT random-priority schedules, depth 3,
         a point at every executed line of mako code and every template-level call).  Checked per get_template call:
-        freshness under C14's rule w.r.t. the file as it was when the call performed its first action; only
-        documented exceptions; per run: (kind, version) results linearisable against a sequential reference lookup;
+        the returned object is a Template (never None or a half-made entry); freshness under C14's rule w.r.t. the
+        file as it was when the call performed its first action; only documented exceptions; per run: (kind, version) results linearisable against a sequential reference lookup;
         first requests compile once / same object; no thread blocked at the end (deadlock / time-out / stray thread);
         mutex acquire/release pairing; LRU bound whenever no thread is inside an LRU write; render output = the
         output of the same render run alone; adjust_uri raises nothing.
 Regenerated obligations (group Conc): every lazily initialised shared cell is stored complete; ModuleNamespace
-        obtains its module through the import machinery only.
+        obtains its module through the import machinery only; LRUCache.__setitem__ inserts an entry together with
+        its value.
 """
 from __future__ import annotations
 
@@ -47,7 +51,10 @@ RULE = ("scenarios = 2-3 thread programs over {get same/different URI, tick + mo
         "fresh module whose body yields between its definitions (import lock instrumented; 240 schedules, exhaustive); "
         "first cached calls of a def with its own cache_region on a region-dependent back end with a point at every "
         "executed line of mako/cache.py (every stop line of one thread x the other running to completion, both ways "
-        "round, exhaustive); the corpus/C16 regression schedules; plus PCT random-priority schedules (depth 3) with a "
+        "round, exhaustive); bounded lookups (collection_size 1, 2 x filesystem_checks on/off; first store, and a store "
+        "that evicts the reader's entry) with a point at every executed line of the LRUCache methods: writer stopped at "
+        "every line x reader on the lock-free hit path running to completion, and vice versa (exhaustive); the "
+        "corpus/C16 regression schedules; plus PCT random-priority schedules (depth 3) with a "
         "point at every executed line of mako code; a schedule is non-trivial when it contains at least one "
         "preemption; distinct = distinct (scenario, executed schedule)")
 ASSUMPTIONS = [
@@ -66,9 +73,10 @@ ASSUMPTIONS = [
 TRUSTED_EXTRA = [
     "C16: harness/sched.py (token-passing scheduler; instrumented mutex / collection / _uri_cache / os probes / "
     "Template / memoized_property / __import__ of mako.runtime; sys.settrace line-level mode); preemption inside a "
-    "modelled atomic step is only sampled (line-level PCT schedules, the mako/cache.py stop-line stream)",
+    "modelled atomic step is only sampled (line-level PCT schedules, the mako/cache.py and LRUCache stop-line streams)",
     "C16: tools/regen_conc.py (syntactic analysis: 'no statement mutates the object after it has been stored into the "
-    "shared container', 'self.module comes from __import__/import_module calls only, sys.modules is not read')",
+    "shared container', 'self.module comes from __import__/import_module calls only, sys.modules is not read', "
+    "'LRUCache.__setitem__ inserts only _Item(key, value) objects built from its value argument')",
 ]
 REGEN = ["Lookup", "Conc"]
 
@@ -179,6 +187,9 @@ class Runner:
         self.cache_impl = S.mem_cache_impl()
         self.region_impl = S.region_cache_impl()
         self.cache_pred = S.file_lines_predicate("cache.py")
+        self.lru_pred = S.class_lines_predicate("util.py", "LRUCache")
+        from mako.template import Template
+        self.Template = Template
         from mako import exceptions
         from mako.lookup import TemplateLookup
         self.X = exceptions
@@ -267,7 +278,7 @@ class Runner:
             strategy = S.SoloFirst(ptid, strategy)
         pred = None
         if line_level:
-            pred = self.cache_pred if line_level == "cache" else self.pred
+            pred = {"cache": self.cache_pred, "lru": self.lru_pred}.get(line_level, self.pred)
         sch = S.Scheduler(strategy, wall_limit=wall, trace_lines=pred,
                           max_steps=2_000_000 if line_level else 5000)
         world.instrument(lookup, sch)
@@ -313,8 +324,11 @@ class Runner:
                         try:
                             try:
                                 t = lookup.get_template("/u%d.html" % u)
-                                c["res"] = ("ok", t)
-                                last = t
+                                if isinstance(t, self.Template):
+                                    c["res"] = ("ok", t)
+                                    last = t
+                                else:       # "every call returns a completely constructed Template"
+                                    c["res"] = ("nottemplate", "get_template returned %r, not a Template" % (t,))
                             except X.TopLevelLookupException:
                                 c["res"] = ("top",)
                             except X.TemplateLookupException:
@@ -465,8 +479,8 @@ def impl_answer(sc, o):
                 if k == "ok":
                     i = r["t"]
                     rs.append("ok.%d.%d.%d.%d" % (i["id"], i["ver"], i["stamp"], 1 if via_h2(r["labels"]) else 0))
-                elif k == "other":
-                    rs.append("other(%s)" % r["res"][1])
+                elif k in ("other", "nottemplate"):
+                    rs.append("%s(%s)" % (k, r["res"][1]))
                 else:
                     rs.append(k)
             elif "k" in r:
@@ -649,6 +663,8 @@ def oracle(ctx, sc, o, stream):
                     okk = True
             if not okk:
                 bad.append(("spurious-compile-exception", "thread %d u%d" % (c["tid"], u)))
+        elif r[0] == "nottemplate":
+            bad.append(("returned-not-a-template", "thread %d get_template(u%d): %s" % (c["tid"], u, r[1])))
         else:
             bad.append(("undocumented-exception", "thread %d get_template(u%d) raised %s" % (c["tid"], u, r[1:])))
     if sc["first"] and not (o.deadlock or o.timed_out):
@@ -841,6 +857,49 @@ def ns_module_scenario():
                 model=False)
 
 
+def lru_lines_stream(ctx, runner, seen_sites):
+    """bounded lookups with a scheduling point at every executed line of the LRUCache methods of mako/util.py
+    (`__setitem__`, `_Item.__init__`, `_manage_size`, `__getitem__`) in addition to the model's points: a writer that
+    stores a first request (or a second URI, which evicts the first) is stopped after k steps, for EVERY k, while a
+    reader on the lock-free path of get_template (collection hit, no mutex) runs to completion - and the other way
+    round; x collection_size 1, 2 x filesystem_checks on/off.  Oracle only: every call returns a Template (never None /
+    a half-made entry), nothing but the documented exceptions"""
+    st = ctx.stream("oracle.lru-lines", "oracle", exhaustive=True)
+    two = [(0, 0, 1), (0, 1, 1)]
+    variants = []
+    for cap in (1, 2):
+        for checks in (True, False):
+            variants.append(dict(scn("lru-lines-first-cap%d-%s" % (cap, "checks" if checks else "nochecks"),
+                                     [["g0"], ["g0"]], cap=cap, checks=checks), model=False))
+            variants.append(dict(scn("lru-lines-evict-cap%d-%s" % (cap, "checks" if checks else "nochecks"),
+                                     [["g1"], ["g0"]], fs=two, cap=cap, checks=checks, prologue=["g0"]), model=False))
+    for sc in variants:
+        for first, second in ((0, 1), (1, 0)):
+            o = runner.run(sc, S.StopLine(first, 10 ** 9, second), line_level="lru")
+            n = sum(1 for t, _ in o.trace if t == first)
+            ctx.branch("lru-lines:steps-of-stopped-thread<=%d" % (10 * ((n + 9) // 10)))
+            for k in range(0, n + 1):
+                o = runner.run(sc, S.StopLine(first, k, second), line_level="lru")
+                st["cases"] += 1
+                if 0 < k < n:
+                    ctx.nontriv(("lru-lines", sc["name"], first, k))
+                for c in o.calls:
+                    ctx.branch("lru-lines:get:" + c["res"][0])
+                for site, detail in oracle(ctx, sc, o, "oracle.lru-lines"):
+                    ctx.branch("oracle-site:" + site)
+                    if ("lru-lines", site) in seen_sites:
+                        continue
+                    seen_sites.add(("lru-lines", site))
+                    case = case_of(sc, o)
+                    case["line_level"] = "lru"
+                    case["stopped_thread"] = first
+                    case["stop_after_steps"] = k
+                    stopped = [l for t, l in o.trace if t == first][:k]
+                    ctx.violation(site, case, detail + " (thread %d stopped after %d steps: points %s, %d of them lines "
+                                  "of LRUCache methods)" % (first, k, "".join(l for l in stopped if l != "l"),
+                                                            sum(1 for l in stopped if l == "l")), "oracle.lru-lines")
+
+
 def corpus_stream(ctx, runner, seen_sites):
     """minimised past failing schedules, replayed first (implementation oracle + model on the same schedule)"""
     import glob
@@ -871,6 +930,7 @@ def run(ctx):
     try:
         corpus_stream(ctx, runner, seen_sites)
         cache_lines_stream(ctx, runner, seen_sites)
+        lru_lines_stream(ctx, runner, seen_sites)
         scs = scenarios(ctx.tier) + include_scenarios(ctx.tier) + [ns_module_scenario()]
         t_end = time.time() + (30 if ctx.quick else 330)
         total = 0
